@@ -192,6 +192,10 @@ def handle4 : List String → Option String
         let v := r0.get i j
         if rp.n0 = r0.n0 ∧ rp.n1 = r0.n1 ∧ rp.get i j = v ∧ rm.get i j = v then showRat v else "?"
       pure (s!"{r0.n0} {r0.n1} | " ++ " ".intercalate cells)) rest
+  | "colinact" :: rest => runP (do
+      -- colinact <clip> <whitebalancing> <affine> <colour> <tarr> : inactive ColorCorrection
+      let cl ← P.bool; let wb ← P.bool; let af ← P.bool; let co ← P.bool; let a ← pTArr; P.done
+      pure (showTArr (colourInactive ⟨cl, wb, af, co⟩ a))) rest
   | "illum" :: rest => runP (do
       -- illum <rgb> <dt> n0 n1 <3*n0*n1 values, channel fastest> <nscal> (n0*n1 values)*
       let rgb ← P.bool; let dt ← pDT; let n0 ← P.nat; let n1 ← P.nat
